@@ -16,9 +16,16 @@ def ratio(hi=3.0):
 
 @st.composite
 def seasonality(draw):
-    kind = draw(st.sampled_from(["uniform", "dense", "sparse", "dense"]))
+    kind = draw(st.sampled_from(["uniform", "dense", "sparse", "dense", "boundary"]))
     if kind == "uniform":
         return [1 / 12] * 12
+    if kind == "boundary":
+        # the first-year ratio branches on the share harvested after April being below 25 %: shares on both sides of that boundary, at
+        # distances from 1e-4 to 6e-3 (never the tie itself, which rounding could send either way)
+        after = 0.25 + draw(st.sampled_from([-6e-3, -4.5e-3, -2e-3, -1e-4, 1e-4, 2e-3, 4.5e-3, 6e-3]))
+        head = draw(st.lists(st.floats(0.05, 1.0), min_size=4, max_size=4))
+        tail = draw(st.lists(st.floats(0.05, 1.0), min_size=8, max_size=8))
+        return [x / sum(head) * (1 - after) for x in head] + [x / sum(tail) * after for x in tail]
     if kind == "sparse":
         k = draw(st.integers(1, 3))
         idx = draw(st.lists(st.integers(0, 11), min_size=k, max_size=k, unique=True))
